@@ -32,6 +32,35 @@ var ErrStatusNotFound = errors.New("credential contains no (relevant) status")
 // ErrMultipleFound is returned when multiple credentials or revocations are found for the same ID.
 var ErrMultipleFound = errors.New("multiple found")
 
+// ErrStorage is matched (using errors.Is) by errors returned when a credential or revocation could not be written to the underlying storage.
+// It does not say anything about the credential or revocation itself: the operation can be tried again.
+var ErrStorage = errors.New("storage error")
+
+// StorageError marks the given error as being caused by the underlying storage, so it can be recognized using errors.Is(err, ErrStorage).
+// The error message and the wrapped errors stay the same.
+func StorageError(err error) error {
+	if err == nil {
+		return nil
+	}
+	return storageError{err: err}
+}
+
+type storageError struct {
+	err error
+}
+
+func (s storageError) Error() string {
+	return s.err.Error()
+}
+
+func (s storageError) Unwrap() error {
+	return s.err
+}
+
+func (s storageError) Is(target error) bool {
+	return target == ErrStorage
+}
+
 // ErrRevoked is returned when a credential has been revoked and the required action requires it to not be revoked.
 var ErrRevoked = errors.New("credential is revoked")
 
